@@ -290,7 +290,7 @@ def run(ctx):
     if not exes.get('hC07_INTRUSIVE_LIST'):
         ctx.violation('harness-build', 'harness does not compile against /repo: ' + str(errs)[-1500:], found_input=False); return
     drv = [vlib.driver_path(), 'C07']
-    n = 800 if thorough else 120
+    n = 240 if thorough else 120
     nt = lambda c: any(l.startswith('rm') for l in c) and sum(1 for l in c if l.split()[0] in ('ins', 'rm')) >= 6
     for c in cols:
         exe = exes.get('hC07_' + c)
